@@ -443,3 +443,21 @@ def maximum(a, b):
             return np.frompyfunc(one, 2, 1)(a, b)
         return np.maximum(a, b)
     return one(a, b)
+
+
+def cov(m, y=None, rowvar=True, **kw):
+    """numpy.cov for object arrays (rows are variables): unbiased sample covariance"""
+    m = np.asarray(m)
+    if m.dtype != object:
+        return np.cov(m, y, rowvar, **kw)
+    if m.ndim == 1:
+        m = m[None, :]
+    if not rowvar:
+        m = m.T
+    nv, n = m.shape
+    mean = [sum(m[i, :]) / n for i in range(nv)]
+    out = np.empty((nv, nv), dtype=object)
+    for i in range(nv):
+        for j in range(nv):
+            out[i, j] = sum((m[i, k] - mean[i]) * (m[j, k] - mean[j]) for k in range(n)) / (n - 1)
+    return out if nv > 1 else out[0, 0]
